@@ -280,12 +280,21 @@ fn judge(env: &mut Env, co: &mut CaseOut, sc: &Scenario, faulty_runs: &[Vec<Faul
         }
         if let (Some(a), Some(b)) = (files.get(".typecache"), sc.golden.get(".typecache")) {
             if a != b {
-                co.violate_hint(
-                    format!("C17/cache-record-differs/{}", sig_tail),
-                    "3: ... ends in the same state as a fresh generation (.typecache included)",
-                    format!("{}: .typecache after recovery differs from the golden run's", what),
-                    hint,
-                );
+                // Not the same bytes as a fresh generation's record. That alone proves nothing (a
+                // record may carry digests of files whose timestamp comment differs); what counts is
+                // that it does its job: one more unchanged run must find everything current.
+                let mut p3 = c.p_recover.clone();
+                p3.hash_keys = [p3.hash_keys[1].rotate_left(5), p3.hash_keys[0] ^ 0x77];
+                let again = scen::run_tool(env, sc.w, &c.setup, &sc.cfg, p3, false, false);
+                co.count("record_differs_from_golden_checked_functionally", 1);
+                if !again.res.status.is_ok() || again.res.regenerated() {
+                    co.violate_hint(
+                        format!("C17/cache-record-unusable/{}", sig_tail),
+                        "3: ... ends in the same state as a fresh generation (the record left by the recovery run is accepted by the next unchanged run)",
+                        format!("{}: after recovery one more unchanged run {} ", what, if again.res.status.is_ok() { "regenerated again".to_string() } else { again.res.status.short() }),
+                        hint,
+                    );
+                }
             }
         }
     }
